@@ -84,29 +84,102 @@ def r2(ctx):
     ctx.ob("in_check", len(lv) == 1 and lv[0].ret == want, f"in_check() returns {[T.show(l.ret) for l in lv]}, expected checkers != 0", site=P.body(key).get("def_span"), sample=T.show(want))
 
 
+CONSTRUCTORS = (MG + "fen::parse_fen", MG + "BoardBuilder::build")
+
+
+def refresh_fn(P):
+    """The from-scratch computation of (pinned, checkers), found by role rather than by name or signature: the non-pub function of chess_movegen that
+    both constructors call and whose (private) call tree consults chess_lookup::between.  Forms: `&mut Board` (writes the two fields itself) or
+    `&Board -> (BitBoard, BitBoard)` (each caller stores the pair; which component is which is read off the callers' assignments)."""
+    def direct(k):
+        return {t_["f"].get("fn") for _, t_ in P.calls(k) if t_["f"].get("k") == "fnref"}
+    common = None
+    for c_ in CONSTRUCTORS:
+        ds = {f for f in direct(c_) if f in P.fns and P.fns[f]["crate"] == "chess_movegen" and P.fns[f].get("vis") != "pub" and "::{" not in f}
+        common = ds if common is None else common & ds
+    cands = sorted(f for f in (common or ()) if any(t_["f"].get("fn") == "chess_lookup::between" for g_ in k2.private_closure(P, f) for _, t_ in P.calls(g_)))
+    def establishes(f):
+        b = P.body(f)
+        if b["locals"][0]["ty"] == "(chess_bitboard::BitBoard, chess_bitboard::BitBoard)":
+            return True
+        return b["argc"] >= 1 and b["locals"][1]["ty"].startswith("&mut") and all(k2.assigns_to_field(P, f, MG + "Board", n_) for n_ in ("pinned", "checkers"))
+    cands = [f for f in cands if establishes(f)]
+    if len(cands) != 1:
+        raise AnchorError(f"expected exactly one private refresh of pinned/checkers called by both constructors; found {cands}")
+    key = cands[0]
+    body = P.body(key)
+    ret = body["locals"][0]["ty"]
+    info = {"key": key, "form": "mut" if body["locals"][1]["ty"].startswith("&mut") else "pair", "idx": {}, "stores": {}}
+    if info["form"] == "pair":
+        if ret != "(chess_bitboard::BitBoard, chess_bitboard::BitBoard)":
+            raise AnchorError(f"{key}: neither `&mut Board` nor `-> (BitBoard, BitBoard)`")
+        for c_ in CONSTRUCTORS:
+            cb = P.body(c_)
+            st = {}
+            for bj, blk in enumerate(cb["blocks"]):
+                for s in blk["s"]:
+                    if s["k"] != "assign" or s["r"].get("k") != "use":
+                        continue
+                    fp = [e for e in s["p"]["pj"] if isinstance(e, dict) and e.get("a") == MG + "Board"]
+                    if not fp or fp[-1].get("n") not in ("pinned", "checkers"):
+                        continue
+                    d = k2.describe_operand(P, cb, s["r"]["o"])        # follows the compiler's temporaries of a destructuring assignment
+                    if d[0] == "proj" and d[1][0] == "call" and T.strip_generics(d[1][1]) == key and len(d[2]) == 1 and isinstance(d[2][0], int):
+                        st.setdefault(0, {})[fp[-1]["n"]] = (d[2][0], bj)
+            info["stores"][c_] = st
+            for bi, m in st.items():
+                for n_, (i_, _) in m.items():
+                    if info["idx"].setdefault(n_, i_) != i_:
+                        raise AnchorError(f"the constructors disagree on which component of {key}'s result is `{n_}`")
+        if set(info["idx"]) != {"pinned", "checkers"} or info["idx"]["pinned"] == info["idx"]["checkers"]:
+            raise AnchorError(f"{key}: the callers do not store both components of its result (found {info['idx']})")
+    return info
+
+
+def refreshed_field(P, eng, lf, info, name):
+    """term of the `pinned` / `checkers` set a return leaf of the refresh function leaves behind"""
+    if info["form"] == "mut":
+        slf = ("param", 0, "self")
+        final = eng.freeze(lf.state, lf.ext.get(slf, ("obj", slf)))
+        names = [f["name"] for f in P.adt(MG + "Board")["variants"][0]["fields"]]
+        return T.get_path(final, (("f", names.index(name), name, None),))
+    r = lf.ret
+    return r[1][info["idx"][name]] if r[0] == "tuple" else ("unreadable", r)
+
+
 @rule("C03.R4", "constructors refresh the cached pin/check sets before returning a board")
 def r4(ctx):
     P = ctx.P
-    upd = MG + "Board::update_pin_info"
-    for key in (MG + "fen::parse_fen", MG + "BoardBuilder::build"):
+    info = refresh_fn(P)
+    upd = info["key"]
+    for key in CONSTRUCTORS:
         ctx.used_body(key)
         body = P.body(key)
         oks = k2.result_blocks(body, "Ok")
         calls = [b for b, _ in k2.call_sites(P, key, upd)]
+        if info["form"] == "pair":
+            # the call only computes: it counts when both components are stored into the board (the later of the two stores is the refresh point)
+            calls = [max(bj for _, bj in m.values()) for bi, m in info["stores"].get(key, {}).items() if set(m) == {"pinned", "checkers"}]
         ctx.floor(f"{key.rsplit('::',1)[1]}: Ok returns", len(oks), 1)
         for ob in oks:
-            ctx.ob(f"{key.rsplit('::',1)[1]} Ok@bb{oks.index(ob)}", k2.dominated_by_any(body, ob, calls),
-                   f"{key} can return Ok(board) without having called update_pin_info: pinned/checkers would be stale (empty)", site=body.get("def_span"),
+            ctx.ob(f"{key.rsplit('::',1)[1]} Ok@bb{oks.index(ob)}", k2.dominated_by_any(body, ob, calls) or ob in calls,
+                   f"{key} can return Ok(board) without having refreshed pinned/checkers ({T.short(upd)}): they would be stale (empty)", site=body.get("def_span"),
                    sample={"ok_block": ob, "refresh_calls": calls})
-    # the refresh clears both sets first (unconditionally)
+    # the refresh starts from empty sets (unconditionally): it does not build on what the board held before
     body = P.body(upd)
     ctx.used_body(upd)
     c = cfg_of(body)
-    for fld in ("pinned", "checkers"):
-        ws = k2.assigns_to_field(P, upd, MG + "Board", fld)
-        first = [b for b, s in ws if s["r"].get("k") in ("use", "agg")]
-        ok = any(c.postdominates(b, 0) or b == 0 for b in first) and ws and min(b for b, _ in ws) in first
-        ctx.ob(f"update_pin_info clears {fld}", ok, f"update_pin_info does not unconditionally reset `{fld}` before rebuilding it", site=body.get("def_span"))
+    if info["form"] == "mut":
+        for fld in ("pinned", "checkers"):
+            ws = k2.assigns_to_field(P, upd, MG + "Board", fld)
+            first = [b for b, s in ws if s["r"].get("k") in ("use", "agg")]
+            ok = any(c.postdominates(b, 0) or b == 0 for b in first) and ws and min(b for b, _ in ws) in first
+            ctx.ob(f"update_pin_info clears {fld}", ok, f"{T.short(upd)} does not unconditionally reset `{fld}` before rebuilding it", site=body.get("def_span"))
+    else:
+        reads = {e.get("n") for blk in body["blocks"] for s in blk["s"] + [blk["t"]] for pl in __import__("analysis.facts", fromlist=["x"]).walk_places(s) for e in pl["pj"]
+                 if isinstance(e, dict) and e.get("a") == MG + "Board"}
+        for fld in ("pinned", "checkers"):
+            ctx.ob(f"update_pin_info clears {fld}", fld not in reads, f"{T.short(upd)} builds on the board's previous `{fld}` set instead of starting from empty", site=body.get("def_span"))
 
 
 # R3: dependence signatures of the two computations of pinned/checkers
@@ -135,7 +208,7 @@ def piece_consts(P, key):
 @rule("C03.R3", "from-scratch and incremental check/pin computation consult the same attacker classes")
 def r3(ctx):
     P = ctx.P
-    upd, mk = MG + "Board::update_pin_info", MG + "Board::move_unchecked_into"
+    upd, mk = refresh_fn(P)["key"], MG + "Board::move_unchecked_into"
     for key in (upd, mk):
         ctx.used_body(key)
         cs = callee_set(P, key)
@@ -221,15 +294,16 @@ def _swap_states(P):
 
 
 def _drop_refresh(P):
+    rk = refresh_fn(P)["key"]
     b = P.own("fns", MG + "BoardBuilder::build")
     for blk in b["blocks"]:
         t = blk["t"]
-        if t["k"] == "call" and t["f"].get("fn", "").endswith("update_pin_info"):
+        if t["k"] == "call" and t["f"].get("fn", "") == rk:
             t["f"]["fn"] = MG + "Board::noop"
 
 
 def _no_pawn_checks(P):
-    b = P.own("fns", MG + "Board::update_pin_info")
+    b = P.own("fns", refresh_fn(P)["key"])
     for blk in b["blocks"]:
         t = blk["t"]
         if t["k"] == "call" and t["f"].get("fn", "") == "chess_lookup::pawn_attacks_moves":
@@ -314,7 +388,8 @@ from analysis import chessref as R
 def r6(ctx):
     P = ctx.P
     from rules.C01 import Ctxt, LOOKUPS, KING_SQ, NEXT, COLOR, fld, word, iter_domain
-    key = MG + "Board::update_pin_info"
+    info = refresh_fn(P)
+    key = info["key"]
     ctx.used_body(key)
     site = P.body(key).get("def_span")
     eng = T.Engine(P, opaque=LOOKUPS | {KING_SQ, NEXT})
@@ -334,10 +409,7 @@ def r6(ctx):
         finals = []
         for lf in [l for l in mine if l.ret[0] != "loopback"]:
             finals.append(False)
-            final = eng.freeze(lf.state, lf.ext.get(slf, board))
-            ch = T.get_path(final, (("f", 7, "checkers", None),))
-            names = [f["name"] for f in P.adt(MG + "Board")["variants"][0]["fields"]]
-            ch = T.get_path(final, (("f", names.index("checkers"), "checkers", None),))
+            ch = refreshed_field(P, eng, lf, info, "checkers")
             w = ch[3][0] if ch[0] == "adt" else ch
             shown = w
             n = acnorm(w)
